@@ -21,19 +21,19 @@ import (
 // World is one simulated deployment: a provider node over SimStore, the
 // network, browsers, and a ledger of everything honest parties emitted.
 type World struct {
-	O      *kernel.Outcome
-	Tape   *kernel.Tape
-	Cfg    *kernel.Chooser
-	Store  *Store
-	Net    *Net
-	OP     *OPNode
-	Issuer string
-	Router string
+	O         *kernel.Outcome
+	Tape      *kernel.Tape
+	Cfg       *kernel.Chooser
+	Store     *Store
+	Net       *Net
+	OP        *OPNode
+	Issuer    string
+	Router    string
 	CryptoKey [32]byte
-	Conf   *op.Config
-	Caps   Caps
-	Raw    *http.Client // attacker / raw client without cookie jar
-	Start  time.Time
+	Conf      *op.Config
+	Caps      Caps
+	Raw       *http.Client // attacker / raw client without cookie jar
+	Start     time.Time
 
 	ClientKeys map[string]jose.JSONWebKey // private keys of private_key_jwt clients
 	SigAlg     jose.SignatureAlgorithm
@@ -64,11 +64,11 @@ type TokenRecord struct {
 }
 
 type StdOptions struct {
-	Router        string // "", "A", "B": empty = seeded choice
-	ForceCaps     *Caps
-	ForceConfig   func(*op.Config)
-	Algs          []int // indices into AlgFamilies to choose from (nil: all)
-	SessionStates *bool
+	Router         string // "", "A", "B": empty = seeded choice
+	ForceCaps      *Caps
+	ForceConfig    func(*op.Config)
+	Algs           []int // indices into AlgFamilies to choose from (nil: all)
+	SessionStates  *bool
 	NoCustomClaims bool
 	AllGrants      bool // every client is registered for every grant type
 }
@@ -422,16 +422,16 @@ func (w *World) Record(tr *TokenResponse, flow, client string, reqID int, authRe
 // ---- honest building blocks used by many properties ----
 
 type AuthParams struct {
-	Client       string
-	RedirectURI  string
-	ResponseType string
-	ResponseMode string
-	Scope        string
-	State        string
-	Nonce        string
-	Challenge    string
+	Client          string
+	RedirectURI     string
+	ResponseType    string
+	ResponseMode    string
+	Scope           string
+	State           string
+	Nonce           string
+	Challenge       string
 	ChallengeMethod string
-	Extra        url.Values
+	Extra           url.Values
 }
 
 func (p AuthParams) Values() url.Values {
@@ -481,11 +481,11 @@ func (w *World) LoginAndCallback(b *Browser, authReqID, username, password strin
 
 // AuthzResponse is the decoded authorization response as the client's user agent sees it.
 type AuthzResponse struct {
-	Mode   string // query, fragment, form_post
-	Target string // redirect target without the response parameters (form action for form_post)
-	Params url.Values
-	Inputs int // form_post: number of input elements
-	Forms  int
+	Mode     string // query, fragment, form_post
+	Target   string // redirect target without the response parameters (form action for form_post)
+	Params   url.Values
+	Inputs   int // form_post: number of input elements
+	Forms    int
 	RawQuery string
 }
 
